@@ -790,3 +790,86 @@ func ruleParserNumbersChecked(c *Ctx, rid string, scope []*ssa.Function) {
 	c.count("parser-strconv-calls", n)
 	c.floor("parser-strconv-calls", 2)
 }
+
+// nullOnlyForNegative (written while reading the sweep's survivors around the length tests; the edit
+// `num < 0` -> `num <= 0` itself is also caught by the suite — `$0\r\n\r\n` then yields the null
+// bulk string and leaves its CRLF in the stream): a test
+// of a wire-declared length against a constant that sends both 0 and -1 to the same side may not
+// lead straight to a success return: the empty value has a body (its CRLF) to read, the null one
+// has none.
+func nullOnlyForNegative(c *Ctx, rid string) {
+	scope := c.P.parserScope()
+	n := 0
+	for _, f := range scope {
+		ord := 0
+		allInstrs(f, func(ins ssa.Instruction) {
+			iff, ok := ins.(*ssa.If)
+			if !ok {
+				return
+			}
+			bo, ok := iff.Cond.(*ssa.BinOp)
+			if !ok {
+				return
+			}
+			fromWire := func(v ssa.Value) bool {
+				ex, ok := strip(v).(*ssa.Extract)
+				if !ok || ex.Index != 0 {
+					return false
+				}
+				call, ok := ex.Tuple.(*ssa.Call)
+				return ok && nameIn(calleeName(call.Common()), "strconv.Atoi", "strconv.ParseInt", "strconv.ParseUint")
+			}
+			var k int64
+			numLeft := false
+			if kc, isC := constInt(bo.Y); isC && fromWire(bo.X) {
+				k, numLeft = kc, true
+			} else if kc, isC := constInt(bo.X); isC && fromWire(bo.Y) {
+				k = kc
+			} else {
+				return
+			}
+			eval := func(num int64) (bool, bool) {
+				a, b := num, k
+				if !numLeft {
+					a, b = k, num
+				}
+				switch bo.Op {
+				case token.LSS:
+					return a < b, true
+				case token.LEQ:
+					return a <= b, true
+				case token.GTR:
+					return a > b, true
+				case token.GEQ:
+					return a >= b, true
+				case token.EQL:
+					return a == b, true
+				case token.NEQ:
+					return a != b, true
+				}
+				return false, false
+			}
+			r0, ok0 := eval(0)
+			r1, ok1 := eval(-1)
+			if !ok0 || !ok1 {
+				return
+			}
+			n++
+			ord++
+			key := fmt.Sprintf("%s/length-test#%d", fnName(f), ord)
+			bad := false
+			if r0 == r1 {
+				succ := iff.Block().Succs[0]
+				if !r0 {
+					succ = iff.Block().Succs[1]
+				}
+				if ret, isRet := succ.Instrs[len(succ.Instrs)-1].(*ssa.Return); isRet && len(ret.Results) == 2 && isNilConst(retOperand(ret, 1)) && !isNilConst(retOperand(ret, 0)) {
+					bad = true
+				}
+			}
+			c.check(!bad, rid, key, c.P.instrPos(iff), "0 and -1 are told apart before a value is returned without reading a body", "a declared length of 0 takes the same way as -1 to a success return that reads no body: the empty value becomes the null one and its CRLF stays in the stream as the start of the next value")
+		})
+	}
+	c.count("wire-length-tests", n)
+	c.floor("wire-length-tests", 2)
+}
